@@ -5,6 +5,7 @@ import FxVerif.Proofs.C14Queue
 import FxVerif.Proofs.C14Exec
 import FxVerif.Proofs.C14Sim
 import FxVerif.Proofs.C14SimInit
+import FxVerif.Proofs.C14Inv
 /-!
 # C14 — account migration moves everything, once, to the address that authorised it
 
@@ -650,6 +651,104 @@ theorem queues_rewritten_unbonding_id_index {s s' : State} {frm to : Addr} {sigO
     · have h2 := wf.id_to id r0 hg
       rw [sw_fix frm to r0.1 h1 h2] at e
       exact h1 e
+
+
+/-! ## the index invariant of every history, and the index theorems without hypothesis on the pre-state -/
+
+/-- every operation keeps: a by-validator index entry (0x71, 0x33, 0x35, 0x36) exists exactly together with its record -/
+theorem idxInv_step {s : State} (h : IdxInv s) (op : Op) : IdxInv (step cfg s op).1 := by
+  have keep : ∀ (o : Option State), (∀ s', o = some s' → IdxInv s') → IdxInv (ofOpt s o).1 := by
+    intro o ho
+    cases o with
+    | none => exact h
+    | some s' => exact ho s' rfl
+  cases op with
+  | send x y d n =>
+    simp only [step]
+    apply keep
+    intro s' hs
+    cases hb : sendUnlocked s.bal (lockedOf s x d) x y d n <;> simp [hb] at hs
+    subst hs; exact idxInv_of_fields h rfl rfl rfl rfl rfl rfl rfl
+  | mint x d n => exact idxInv_of_fields h rfl rfl rfl rfl rfl rfl rfl
+  | delegate d v amt rw => exact keep _ (fun s' hs => idxInv_delegate h hs)
+  | undelegate d v amt rw => exact keep _ (fun s' hs => idxInv_undelegate h hs)
+  | redelegate d x y amt r1 r2 => exact keep _ (fun s' hs => idxInv_redelegate h hs)
+  | withdraw d v rw => exact keep _ (fun s' hs => idxInv_withdraw h hs)
+  | setWithdraw d w => exact idxInv_of_fields h rfl rfl rfl rfl rfl rfl rfl
+  | submit x dep =>
+    refine keep _ (fun s' hs => ?_)
+    unfold submit at hs
+    split at hs
+    · cases hs
+    · cases hs; exact idxInv_of_fields h rfl rfl rfl rfl rfl rfl rfl
+  | deposit x id amt =>
+    refine keep _ (fun s' hs => ?_)
+    unfold deposit at hs
+    split at hs
+    · cases hs
+    · split at hs
+      · cases hs
+      · split at hs
+        · cases hs
+        · cases hs; exact idxInv_of_fields h rfl rfl rfl rfl rfl rfl rfl
+  | vote x id =>
+    refine keep _ (fun s' hs => ?_)
+    unfold vote at hs
+    split at hs
+    · cases hs
+    · split at hs
+      · cases hs
+      · cases hs; exact idxInv_of_fields h rfl rfl rfl rfl rfl rfl rfl
+  | block dt => exact idxInv_endBlock h dt
+  | setPeriods dp vp => exact idxInv_of_fields h rfl rfl rfl rfl rfl rfl rfl
+  | migrate f t sg =>
+    simp only [step]
+    cases hm : migrate cfg s f t sg with
+    | error e => exact h
+    | ok s' =>
+      have hto := target_without_staking_records hm
+      obtain ⟨hne, _, _, _, _, _, _, rfl⟩ := migrate_ok_inv hm
+      have hc : cfg.rewriteDelIdx = true := by rw [cfg_from_code]
+      have hB : IdxInv (bankExecute cfg s f t) := idxInv_of_fields h rfl rfl rfl rfl rfl rfl rfl
+      exact idxInv_of_fields (idxInv_stakingExecute cfg hc hB f t hne hto) rfl rfl rfl rfl rfl rfl rfl
+
+/-- **invariant of every history**: from a state in which the indexes agree with the records (for instance one without
+staking records), after ANY list of operations — migrations included — they still do -/
+theorem idxInv_run {s : State} (h : IdxInv s) (ops : List Op) : IdxInv (run cfg s ops) := by
+  induction ops generalizing s with
+  | nil => exact h
+  | cons op ops ih => exact ih (idxInv_step h op)
+
+/-- a state without staking records satisfies the invariant -/
+theorem idxInv_base (s : State) (h1 : s.dels = []) (h2 : s.delIdx = []) (h3 : s.ubds = []) (h4 : s.ubdIdx = [])
+    (h5 : s.reds = []) (h6 : s.redSrcIdx = []) (h7 : s.redDstIdx = []) : IdxInv s := by
+  refine ⟨?_, ?_, ?_, ?_⟩ <;> intro a x <;> simp [h1, h2, h3, h4, h5, h6, h7, get_nil]
+
+/-- **queues_rewritten** (all four by-validator indexes) for every reachable state, without any hypothesis on the state
+in which the migration happens: after any history from a state without staking records, an accepted migration leaves no
+index entry of the source in any of the four indexes, and afterwards (and after any further history) every index still
+holds an entry exactly for the records in the store — in particular every record of the target is indexed. -/
+theorem queues_rewritten_indexes_reachable {s0 : State} (h0 : IdxInv s0) (before : List Op) {s' : State} {frm to : Addr}
+    {sigOk : Bool} (h : migrate cfg (run cfg s0 before) frm to sigOk = .ok s') (later : List Op) :
+    (∀ v, (v, frm) ∉ s'.delIdx ∧ (v, frm) ∉ s'.ubdIdx) ∧
+    (∀ a b, (a, frm, b) ∉ s'.redSrcIdx ∧ (b, frm, a) ∉ s'.redDstIdx) ∧
+    IdxInv s' ∧ IdxInv (run cfg s' later) := by
+  have hs' : IdxInv s' := by
+    have := idxInv_step (idxInv_run h0 before) (.migrate frm to sigOk)
+    simpa [step, h] using this
+  have hne := (migrate_ok_inv h).1
+  have hd := portfolio_moved_delegations h
+  have hu := portfolio_moved_unbonding h
+  have hr := portfolio_moved_redelegations h
+  refine ⟨fun v => ⟨fun e => ?_, fun e => ?_⟩, fun a b => ⟨fun e => ?_, fun e => ?_⟩, hs', idxInv_run hs' later⟩
+  · obtain ⟨y, hy⟩ := (hs'.del frm v).mp e
+    rw [hd frm v] at hy; simp [hne] at hy
+  · obtain ⟨y, hy⟩ := (hs'.ubd frm v).mp e
+    rw [hu frm v] at hy; simp [hne] at hy
+  · obtain ⟨y, hy⟩ := (hs'.rsrc frm (a, b)).mp e
+    rw [hr frm a b] at hy; simp [hne] at hy
+  · obtain ⟨y, hy⟩ := (hs'.rdst frm (a, b)).mp e
+    rw [hr frm a b] at hy; simp [hne] at hy
 
 
 /-! ## never_reused -/
